@@ -357,7 +357,10 @@ def run_one(mod, ctx: Ctx, name: str, idx: int) -> None:
     g = mod.GENS[name]
     ctx.gen, ctx.case = name, idx
     rng = case_rng(ctx.seed, name, idx)
-    limit = float(os.environ.get("VF_CASE_TIMEOUT", "120"))
+    # wall-clock watchdog (its firing is INCONCLUSIVE, never a violation); a
+    # module whose single cases legitimately take a minute on an idle machine
+    # (C07 forks ~80 simulations per big case) declares a larger CASE_TIMEOUT
+    limit = float(os.environ.get("VF_CASE_TIMEOUT", getattr(mod, "CASE_TIMEOUT", 120)))
     old = None
     try:
         old = signal.signal(signal.SIGALRM, _alarm)
